@@ -66,10 +66,12 @@ VP_HARNESS(h_parse_bytes)
 }
 
 /* ---- type-based index interleaving on pack:2 numa:2 core:2 pu:2 ------------------------------------------------------ */
-VP_HARNESS(h_indexes_types)
+static int idx_w1, idx_w2;
+/* one description with CONCRETE type names (a symbolic character inside the text sends symex through every reading of it) */
+static void indexes_case(unsigned s0, unsigned s1, unsigned s2)
 {
   static const char *const names[3] = { "pack", "numa", "core" };
-  unsigned sel[3]; for (unsigned i = 0; i < 3; i++) sel[i] = (unsigned) vp_in_range(0, 2);
+  unsigned sel[3] = { s0, s1, s2 };
   char *s = malloc(64); VP_NONNULL(s);
   const char *head = "pack:2 numa:2 core:2 pu:2(indexes=";
   unsigned p = 0; for (unsigned i = 0; head[i]; i++) s[p++] = head[i];
@@ -91,8 +93,15 @@ VP_HARNESS(h_indexes_types)
       VP_CHECK(arr[l] == e, "os_index ordering is exactly the interleaving written in the string (first listed type fastest, unlisted levels slowest)");
     }
   }
-  VP_WITNESS_IF(distinct && sel[0] == 2 && sel[1] == 1 && sel[2] == 0, "core:numa:pack");
-  VP_WITNESS_IF(!distinct, "a duplicated type");
+  if (distinct && sel[0] == 2 && sel[1] == 1 && sel[2] == 0) idx_w1 = 1;
+  if (!distinct) idx_w2 = 1;
+}
+VP_HARNESS(h_indexes_types)
+{
+  unsigned sel[3]; for (unsigned i = 0; i < 3; i++) sel[i] = (unsigned) vp_in_range(0, 2);
+  for (unsigned a = 0; a < 3; a++) for (unsigned b = 0; b < 3; b++) for (unsigned c = 0; c < 3; c++) if (sel[0] == a && sel[1] == b && sel[2] == c) indexes_case(a, b, c);
+  VP_WITNESS_IF(idx_w1, "core:numa:pack");
+  VP_WITNESS_IF(idx_w2, "a duplicated type");
 }
 
 /* ---- export: snprintf contract and flag validation on the symmetric seed S1 --------------------------------------------- */
